@@ -106,6 +106,13 @@ def build_corpus(tier, rng):
             v.metas = [VM(m.kind, m.s[:-0 or None] + str(i), style=m.style) for m in st]
             vs.append(v)
         cands.append(("escapes", Item("E", vs, metas=[EM("sall", sty)] if sty else [])))
+    # a variant-level default_with only says how EnumString fills the payload: the variant keeps its name in every printer
+    from vlib.defs import dw
+    for sty, pf in ((None, None), ("snake_case", "c."), ("UPPERCASE", None)):
+        vs = [Variant("OffWhite", "tuple", [Field("String")], [dw("dw_string")]), Variant("Level", "tuple", [Field("u8")], [dw("dw_u8")]),
+              Variant("Named", "named", [Field("u8", "f")], [dw("dw_u8_b"), ser("nm")]), Variant("Plain", "unit"),
+              Variant("Two", "tuple", [Field("u8"), Field("String")], [dw("dwm::dw_u8_path")])]
+        cands.append(("default-with", Item("E", vs, metas=([EM("sall", sty)] if sty else []) + ([EM("prefix", pf)] if pf else []))))
     from props import c01
     for i, it in enumerate(c01.nonascii()):
         if i % 3 == 1:
